@@ -163,6 +163,47 @@ def build_inputs(ctx, leaves):
                         toks = dc.flatten_nodes(h) + dc.flatten_nodes(nodes) + dc.flatten_nodes(t)
                         data, allt, sm = dc.compose2(s.beginstring, mt, toks, "Cok")
                         inputs.append((w, allt, data, sm, True, ["lone_length", mt, val.decode()]))
+    # 4. crossed pairs: the Length field of one pair, without its data, immediately followed by the data field of
+    #    ANOTHER pair of the same part (header: 90/91 and 212/213; bodies with two pairs).  Each is an ordinary field
+    #    then (a length pairs only with its own data field).  Two shapes: the data value is longer than the foreign
+    #    length says, and the foreign length reaches exactly to the separator of the following field.
+    npair = 0
+    for w in dc.SCHEMAS:
+        s = dc.stock(w)
+        pairs = [(a.number, b.number) for a, b in s.length_pairs()]
+        hnums = {m.field.number for m in s.header}
+        hp = [p for p in pairs if p[0] in hnums and p[1] in hnums]
+        mts = [mt for mt in s.bytype if mt not in dc.rendered(w).bad]
+        rng.shuffle(mts)
+        done = 0
+        for mt in mts:
+            nums = {m.field.number for m in s.bytype[mt]["members"]}
+            bp = [p for p in pairs if p[0] in nums and p[1] in nums]
+            for where, pp in (("header", hp), ("body", bp)):
+                if len(pp) < 2 or (where == "header" and done >= 2):
+                    continue
+                (l1, d1), (l2, d2) = rng.sample(pp, 2)
+                for shape in ("longer", "reaches_next"):
+                    h, b, t = dc.gen_message(s, mt, rng, popt=0.2)
+                    drop = {l1, d1, l2, d2}
+                    h = [x for x in h if x[0] not in drop]
+                    b = [x for x in b if x[0] not in drop]
+                    val = b"abcd" if shape == "longer" else b"ab"
+                    part = h if where == "header" else b
+                    part += [(l1, b"2", None), (d2, val, None)]
+                    toks = dc.flatten_nodes(h) + dc.flatten_nodes(b) + dc.flatten_nodes(t)
+                    if shape == "reaches_next":
+                        i = max(k for k, (tg, v) in enumerate(toks) if int(tg) == d2)
+                        nxt = toks[i + 1] if i + 1 < len(toks) else (b"10", b"000")
+                        reach = len(val) + 1 + len(nxt[0]) + 1 + len(nxt[1])
+                        toks[i - 1] = (toks[i - 1][0], str(reach).encode())
+                    data, allt, sm = dc.compose2(s.beginstring, mt, toks, "Cok")
+                    inputs.append((w, allt, data, sm, True, ["crossed_pair", mt, where, shape, str(l1), str(d2)]))
+                    npair += 1
+            done += 1
+            if ctx.quick and done >= 8:
+                break
+    ctx.extra["crossed_pair_inputs"] = npair
     return inputs
 
 
